@@ -249,7 +249,11 @@ func triageCrash(cfg *supConfig, p props.Property, idx int, firstStderr string) 
 		func(c *sim.Scenario) bool { ch := len(c.Calls) > 1; c.Calls = c.Calls[:1]; return ch },
 		func(c *sim.Scenario) bool { ch := c.Calls[0].E2E > 0; c.Calls[0].E2E = 0; return ch },
 		func(c *sim.Scenario) bool { ch := c.Calls[0].Queries > 1; c.Calls[0].Queries = 1; return ch },
-		func(c *sim.Scenario) bool { ch := c.Calls[0].ReverseDNS || c.Calls[0].PublicIP; c.Calls[0].ReverseDNS, c.Calls[0].PublicIP = false, false; return ch },
+		func(c *sim.Scenario) bool {
+			ch := c.Calls[0].ReverseDNS || c.Calls[0].PublicIP
+			c.Calls[0].ReverseDNS, c.Calls[0].PublicIP = false, false
+			return ch
+		},
 		func(c *sim.Scenario) bool { ch := c.Calls[0].MinTTL > 1; c.Calls[0].MinTTL = 1; return ch },
 		func(c *sim.Scenario) bool { ch := len(c.Tape) > 0; c.Tape = nil; return ch },
 	} {
